@@ -81,7 +81,7 @@ uint64_t kmodel_hash(const kmodel_t *m);
 /* ---------------- operations ---------------- */
 
 enum { OP_PUT = 'P', OP_DEL = 'D', OP_BATCH = 'B', OP_FLUSH = 'F', OP_CRANGE = 'R', OP_CALL = 'C',
-       OP_REOPEN = 'O', OP_SNAP = 'S', OP_REL = 's', OP_ITOPEN = 'I', OP_ITCLOSE = 'i',
+       OP_REOPEN = 'O', OP_SSTREN = 'X', OP_SNAP = 'S', OP_REL = 's', OP_ITOPEN = 'I', OP_ITCLOSE = 'i',
        OP_DRAIN = 'W', OP_G100 = 'G', OP_BIGBATCH = 'M' };
 
 typedef struct kupd_s { unsigned char key, del, sz; } kupd_t;
